@@ -259,7 +259,7 @@ def backend_differential(tier):
                     n += 1
                     if "error" in r:
                         raise engine.MachineryError(f"backend differential: {r['error']}")
-                    ops = [(t.get("op"), t.get("layer"), (t.get("args") or {}).get("timeout")) for t in r["trace"]
+                    ops = [(t.get("op"), (t.get("args") or {}).get("timeout")) for t in r["trace"]
                            if isinstance(t, dict) and t.get("op") in ("connect_tcp", "start_tls", "read", "write", "close")]
                     runs[rt] = (ops, r["outcome"])
                 for rt in ("anyio", "trio"):
@@ -268,7 +268,7 @@ def backend_differential(tier):
                         i = next((i for i, (x, y) in enumerate(zip(a, b)) if x != y), min(len(a), len(b)))
                         out.append({"oracle": "C18.backend-ledger",
                                     "message": (f"sync and {rt} backends differ for ct={ct} timeouts={tcfg} method={method} warm={warm}: at OS-level operation #{i} "
-                                                f"(kind, layer, limit in effect) sync={a[i] if i < len(a) else None} {rt}={b[i] if i < len(b) else None}; "
+                                                f"(kind, limit in effect) sync={a[i] if i < len(a) else None} {rt}={b[i] if i < len(b) else None}; "
                                                 f"outcomes sync={runs['sync'][1]} {rt}={runs[rt][1]}"),
                                     "signature": {"harness": "backend-diff", "kind": "backend-ledger", "other": rt}, "case": {"backend_diff": True}})
     return out, n
